@@ -135,8 +135,87 @@ let handle kind fs obs =
                Printf.sprintf "%s.%s.%s.%s.%s/%s/%s" (string_of_n d.d_oft) (string_of_n d.d_tds) (string_of_n d.d_fwd) (string_of_n d.d_name) (string_of_n d.d_ft) dll iat)
              (descs p r)))
          (imports p)
+     | "r" ->
+       (* the resource tree: section length, root, fsck, traversal (4 levels, 64 entries), find_resource(VERSION, 1) *)
+       (match x_resources v (data_dir f mm (n_of_int 2)) with
+        | Err e -> "e:" ^ show_err e
+        | Fault _ -> "fault"
+        | Ok s ->
+          let sn = string_of_n in
+          let show_name = function
+            | NId id -> "i" ^ sn id
+            | NWide ws -> "w" ^ String.concat "." (List.map (fun w -> Printf.sprintf "%04x" (int_of_n w)) ws)
+            | NStr _ -> "s?" in
+          let show_rname = function Ok n -> show_name n | Err e -> "x" ^ show_err e | Fault _ -> "!fault" in
+          let show_item (i : item) =
+            let tgt = (match i.i_tgt with
+              | TDir o -> "D/" ^ sn o
+              | TData (o, b, sz, cp) ->
+                Printf.sprintf "F/%s/%s/%s/%s" (sn o)
+                  (match b with
+                   | Ok r -> let k = if Z.lt (z_of_n r.r_len) (Z.of_int 16) then r.r_len else n_of_int 16 in
+                     sn r.r_off ^ "/" ^ sn r.r_len ^ "/" ^ hex_of_nlist (x_sec_bytes s r.r_off k)
+                   | Err e -> "e" ^ show_err e | Fault _ -> "!fault") (sn sz) (sn cp)
+              | TBad (Err e) -> "X/" ^ show_err e
+              | TBad _ -> "!fault") in
+            Printf.sprintf "%s:%s:%s:%s:%d:%s" (sn i.i_lvl) (sn i.i_eoff) (if i.i_named then "n" else "i") (show_rname i.i_name) (if i.i_isdir then 1 else 0) tgt in
+          let show_witem = function WItem i -> show_item i | WCut -> "cut" | WStop -> "stop" in
+          let rt = x_root s in
+          let items = (match rt with Ok r -> fst (x_walk (nat_of_int 4) s r N0 (n_of_int 64)) | _ -> []) in
+          let show_ferr = function
+            | FPe e -> "ePe." ^ show_err e | FBad8Path -> "eBad8Path" | FNotFound -> "eNotFound" | FNoRootPath -> "eNoRootPath"
+            | FUnDataEntry -> "eUnDataEntry" | FUnDirectory -> "eUnDirectory" in
+          Printf.sprintf "ok:%s;%s;%s;%s;%s" (sn s.rs_len)
+            (match rt with Ok r -> "ok" ^ sn r | Err e -> "e" ^ show_err e | Fault _ -> "!fault")
+            (match x_fsck s with Ok _ -> "ok" | Err e -> "e" ^ show_err e | Fault _ -> "!fault")
+            (join "+" (List.map show_witem items))
+            (match x_find_resource s (n_of_int 16) (n_of_int 1) with
+             | FOk r -> Printf.sprintf "R.%s.%s" (sn r.r_off) (sn r.r_len) | FErr e -> show_ferr e | FFault _ -> "!fault"))
+     | "m" ->
+       (* the debug directory: fields, Dir::data, Dir::entry *)
+       let sn = string_of_n in
+       let hexn off k = hex_of_nlist (List.init k (fun j -> mm.m_get (n_of_z (Z.add (z_of_n off) (Z.of_int j))))) in
+       let show_data = function
+         | Some r -> let l = int_of_n r.r_len in Printf.sprintf "d%d.%s" l (hexn r.r_off (min l 40))
+         | None -> "none" in
+       res_str (fun r ->
+           let ds = x_debug_dirs v r in
+           let rec take k l = if k <= 0 then [] else (match l with [] -> [] | x :: t -> x :: take (k - 1) t) in
+           Printf.sprintf "%s;%s" (sn (n_of_int (List.length ds)))
+             (join ";" (List.map (fun d ->
+                  let ent = (match x_dir_entry v d with
+                    | Ok (ECv20 (i, nm)) -> Printf.sprintf "cv20.%s.%s" (hexn i 16) (hexn nm.r_off (int_of_n nm.r_len))
+                    | Ok (ECv70 (i, nm)) -> Printf.sprintf "cv70.%s.%s" (hexn i 24) (hexn nm.r_off (int_of_n nm.r_len))
+                    | Ok (EDbg i) -> "dbg." ^ hexn i 12
+                    | Ok (EPgo r) -> Printf.sprintf "pgo.%d" (int_of_n r.r_len / 4)
+                    | Ok (EUnknown u) -> "unk." ^ show_data u
+                    | Err e -> "e" ^ show_err e
+                    | Fault _ -> "!fault") in
+                  Printf.sprintf "%s.%s.%s.%s/%s/%s" (sn d.dd_type) (sn d.dd_size) (sn d.dd_addr) (sn d.dd_ptr) (show_data (x_dir_data v d)) ent)
+                (take 8 ds))))
+         (x_debug_try_from v (data_dir f mm (n_of_int 6)))
+     | "u" ->
+       (* the exception directory: RUNTIME_FUNCTION, Function::bytes, Function::unwind_info *)
+       let sn = string_of_n in
+       let hexn off k = hex_of_nlist (List.init k (fun j -> mm.m_get (n_of_z (Z.add (z_of_n off) (Z.of_int j))))) in
+       res_str (fun r ->
+           let fs = x_exception_functions v r in
+           let rec take k l = if k <= 0 then [] else (match l with [] -> [] | x :: t -> x :: take (k - 1) t) in
+           Printf.sprintf "%d;%s" (List.length fs)
+             (join ";" (List.map (fun fn ->
+                  let by = (match x_function_bytes v fn with
+                    | Ok b -> let l = int_of_n b.r_len in Printf.sprintf "b%d.%s" l (hexn b.r_off (min l 8))
+                    | Err e -> "e" ^ show_err e | Fault _ -> "!fault") in
+                  let uw = (match x_unwind_info v fn with
+                    | Ok u ->
+                      let ((((((ver, fl), pro), cnt), fr), fo), codes) = x_unwind_vals mm.m_get u in
+                      Printf.sprintf "u%s.%s.%s.%s.%s.%s.%s" (sn ver) (sn fl) (sn pro) (sn cnt) (sn fr) (sn fo) (hex_of_nlist codes)
+                    | Err e -> "e" ^ show_err e | Fault _ -> "!fault") in
+                  Printf.sprintf "%s.%s.%s/%s/%s" (sn fn.rf_begin) (sn fn.rf_end) (sn fn.rf_unwind) by uw)
+                (take 8 fs))))
+         (x_exception_try_from v (data_dir f mm (n_of_int 3)))
      | _ -> res_str (fun r -> hex_region bb r) (relocs_try_from v (data_dir f mm (n_of_int 5)))) in
-  let is_dq q = String.length q > 1 && (q.[0] = 'x' || q.[0] = 'i' || q.[0] = 'b') && q.[1] = ':' in
+  let is_dq q = String.length q > 1 && (q.[0] = 'x' || q.[0] = 'i' || q.[0] = 'b' || q.[0] = 'r' || q.[0] = 'm' || q.[0] = 'u') && q.[1] = ':' in
   let show_dq fb mf vb mvo q =
     let k = String.sub q 0 1 in
     let sf = dq true fb mf k in
@@ -209,6 +288,74 @@ let handle kind fs obs =
          (* C06_exports_equal / C06_imports_equal (+ dll names, IAT values) / C06_relocs_equal on the implementation's
             two answers: outside raw_tail_not_mapped, whatever the file view decodes the converted view decodes identically *)
          let is_ok x = String.length x >= 3 && String.sub x 0 3 = "ok:" in
+         let body x = String.sub x 3 (String.length x - 3) in
+         let f37l = lazy (raw_tail_not_mapped getF secs) in   (* only forced for well-formed tables: raw sizes are bounded by the file *)
+         if q.[0] = 'r' then begin
+           (* C06_resources_queries_equal: outside F37, when the directory lies in stored bytes (the file view did not clamp:
+              stored_at) and the section is stored congruently to its VirtualAddress modulo 4, every query is EQUAL *)
+           if wf && mvo <> None && is_ok a && not (Lazy.force f37l) then begin
+             (match data_dir f m (n_of_int 2) with
+              | Some (va, size) when stored_at secs va size && prd_va_congruent (n_of_int 4) secs va ->
+                tag "res-equal"; if a <> b then literal := false
+              | Some (va, size) ->
+                tag (if stored_at secs va size then "res-incongruent" else "res-clamped");
+                if a <> b then tag "res-differs-outside-hypotheses"
+              | None -> ())
+           end
+         end
+         else if q.[0] = 'm' then begin
+           (* C06_debug_equal (the table, outside F37) and C06_debug_payload_equal / C06_debug_entry_equal per CONSISTENT entry *)
+           if wf && mvo <> None && is_ok a then begin
+             let es x = (match String.split_on_char ';' (body x) with _ :: t -> t | [] -> []) in
+             if not (Lazy.force f37l) then begin
+               tag "dbg-table";
+               if not (is_ok b) then literal := false
+               else begin
+                 let ea = es a and eb = es b in
+                 if List.length ea <> List.length eb then literal := false
+                 else List.iter2 (fun x y -> match String.split_on_char '/' x, String.split_on_char '/' y with
+                   | fx :: _, fy :: _ -> if fx <> fy then literal := false
+                   | _ -> literal := false) ea eb
+               end
+             end;
+             if is_ok b && List.length (es a) = List.length (es b) then
+               List.iter2 (fun x y -> match String.split_on_char '/' x, String.split_on_char '/' y with
+                 | [fx; dx; ex], [fy; dy; ey] when fx = fy ->
+                   (match String.split_on_char '.' fx with
+                    | [_; size; addr; ptr] ->
+                      let size = n_of_string size and addr = n_of_string addr and ptr = n_of_string ptr in
+                      if x_debug_consistent getF soh secs size addr ptr then begin
+                        tag "dbg-consistent";
+                        if dx <> dy then restricted := false;
+                        if prd_va_congruent (n_of_int 4) secs addr then (if ex <> ey then restricted := false)
+                      end else begin
+                        tag "dbg-inconsistent"; if dx <> dy then tag "dbg-payload-differs-outside-hypothesis"
+                      end
+                    | _ -> restricted := false)
+                 | _ -> ()) (es a) (es b)
+           end
+         end
+         else if q.[0] = 'u' then begin
+           (* C06_exception_equal, C06_function_bytes_equal, C06_unwind_info_equal: outside F37 whatever the file yields
+              (table; per function the bytes and the unwind info) the view yields *)
+           if wf && mvo <> None && is_ok a && not (Lazy.force f37l) then begin
+             tag "exc-ok";
+             if not (is_ok b) then literal := false
+             else begin
+               let fa = String.split_on_char ';' (body a) and fb = String.split_on_char ';' (body b) in
+               if List.length fa <> List.length fb then literal := false
+               else List.iter2 (fun x y ->
+                   match String.split_on_char '/' x, String.split_on_char '/' y with
+                   | [rx; bx; ux], [ry; by; uy] ->
+                     if rx <> ry then literal := false;
+                     if bx.[0] = 'b' && bx <> by then literal := false;
+                     if ux.[0] = 'u' then (tag "unwind-ok"; if ux <> uy then literal := false)
+                   | [cx], [cy] -> if cx <> cy then literal := false
+                   | _ -> literal := false) fa fb
+             end
+           end
+         end
+         else
          if wf && mvo <> None && is_ok a then begin
            tag ("dir-" ^ String.sub q 0 1 ^ "-ok");
            let same = (if q.[0] <> 'i' then a = b else is_ok b && begin
